@@ -506,6 +506,20 @@ def import_name(ctx):
                     if e.src in blks and e.label and e.label[0] == "variant" and e.label[2] == ("Some",) and origin_matches(edge_origin(b, e), lambda o: o[0] == "call" and o[1].endswith("Iterator>::next") or (o[0] == "call" and o[1].endswith("::next"))):
                         body_blks = b.dominated_by_edge(e) & blks
                         if rb in body_blks and not _must_pass(b, body_blks, rb):
+                            # the load may be skipped for a directory that is already loaded as long as the *checks* are not: a call in the iteration that
+                            # carries them (`.and_then(|_| check..)` with a closure, or a helper, whose code tests the project's name) is passed every time
+                            def carries_checks(t_):
+                                cands_ = [x_ for x_ in closure_bodies_passed(b, t_)] + ([ctx.r.V(f.bodies[callee_base(t_)])] if callee_base(t_) in f.bodies else [])
+                                for cb_ in cands_:
+                                    for x_ in [cb_] + [ctx.r.V(f.bodies[y_]) for y_ in sorted(f.cg.reach([cb_.name], cross_spawn=False)) if y_ in f.bodies and not f.is_derived(f.bodies[y_])]:
+                                        for e2 in x_.edges:
+                                            if e2.label and e2.label[0] == "variant" and e2.label[2] == ("None",) and e2.label[3] and ("name" in place_fields(e2.label[3]) or origin_matches(edge_origin(x_, e2), lambda o: o[0] == "field" and "name" in o[1])) \
+                                                    and any(bb_ in x_.dominated_by_edge(e2) for (bb_, _) in x_.aggregates("Result", "Err")):
+                                                return True
+                                return False
+                            carriers = [cb_ for cb_, t_ in b.calls() if cb_ in body_blks and cb_ != rb and carries_checks(t_)]
+                            if any(_must_pass(b, body_blks, cb_) for cb_ in carriers):
+                                continue
                             skipped.append(rb)
         ctx.check(not skipped, f"{short(b.name)}/every-import-loaded-and-checked", [site(b, x) for x in skipped] or [b.loc()],
                   "an iteration of the loop over the imports can skip the recursive load and the name checks chained to it: a project reached a second time under a wrong key is accepted")
@@ -577,6 +591,27 @@ def unique(ctx):
                     every = True
             if checked and every:
                 dup_tests.append((lb, None))
+    # idiom (d): the first name that is seen twice, looked for with `find(|name| !seen.insert(name))` (or `any`), and an error when there is one
+    for lb in [ctx.r.V(x) for x in ctx.r.roots()]:
+        for fbb, ft in lb.calls():
+            if not re.search(r"Iterator>?::(find|any|position)(::<.*>)?$", callee_decl(ft)) or not atom_has_field(lb.prov.operand_atoms(ft["args"][0]), "name"):
+                continue
+            neg_insert = False
+            for cb_ in closure_bodies_passed(lb, ft):
+                ros = [o for p_ in enumerate_paths(cb_) for o in ret_origins(cb_, p_)]
+                if ros and all(o[0] == "not" and any(x[0] == "call" and re.search(r"(HashSet|BTreeSet)::<.*>::insert$", callee_decl(x[3])) for x in o[1]) for o in ros):
+                    neg_insert = True
+            if not neg_insert:
+                continue
+            fl_ = lb.prov.flows_forward(ft["dest"]["local"])
+            for e in lb.edges:
+                hit = e.label and ((e.label[0] == "variant" and e.label[2] == ("Some",) and e.label[3] and e.label[3]["local"] in fl_) or
+                                   (e.label[0] == "bool" and e.label[1] is True and e.label[2] in fl_))
+                if hit and any(bb_ in lb.dominated_by_edge(e) for (bb_, _) in lb.aggregates("Result", "Err")):
+                    # the passing side is the complement: the edge that leaves the test without the error
+                    others = [e2 for e2 in lb.succ.get(e.src, ()) if e2 is not e]
+                    for e2 in others:
+                        dup_tests.append((lb, e2))
     for (b, bb, t) in cons:
         checked_insert = callee_decl(t).endswith("::insert") and any(True for _ in [0] if _result_checked(b, t))
         if callee_decl(t).endswith("::entry"):
